@@ -36,12 +36,14 @@ package doccomposer
 //@     invariant forall q int :: len(old(strArr(doc["alsoKnownAs"]))) <= q && q < len(newURIs) ==> 0 <= src(newURIs, q) && src(newURIs, q) < _k && newURIs[q] == addURIs[src(newURIs, q)]
 //@     invariant forall p int, q int :: len(old(strArr(doc["alsoKnownAs"]))) <= p && p < q && q < len(newURIs) ==> src(newURIs, p) < src(newURIs, q)
 //@     invariant forall q int :: 0 <= q && q < _k ==> addURIs[q] in existingURIs
+//@     invariant forall s string :: s in existingURIs ==> (exists q int :: 0 <= q && q < len(newURIs) && newURIs[q] == s)
 //@   ensures err == nil && r == doc
 //@   ensures isType(doc["alsoKnownAs"], "[]any")
 //@   ensures len(unbox(doc["alsoKnownAs"], "[]any")) >= len(old(strArr(doc["alsoKnownAs"])))
 //@   ensures forall q int :: 0 <= q && q < len(old(strArr(doc["alsoKnownAs"]))) ==> unbox(doc["alsoKnownAs"], "[]any")[q] == boxed(old(strArr(doc["alsoKnownAs"]))[q])
 //@   ensures forall q int :: len(old(strArr(doc["alsoKnownAs"]))) <= q && q < len(unbox(doc["alsoKnownAs"], "[]any")) ==> (exists a int :: 0 <= a && a < len(strArr(entry)) && unbox(doc["alsoKnownAs"], "[]any")[q] == boxed(strArr(entry)[a]))
 //@   ensures forall p int, q int :: 0 <= p && p < q && q < len(unbox(doc["alsoKnownAs"], "[]any")) && q >= len(old(strArr(doc["alsoKnownAs"]))) ==> unbox(doc["alsoKnownAs"], "[]any")[p] != unbox(doc["alsoKnownAs"], "[]any")[q]
+//@   ensures forall a int :: 0 <= a && a < len(strArr(entry)) ==> (exists q int :: 0 <= q && q < len(unbox(doc["alsoKnownAs"], "[]any")) && unbox(doc["alsoKnownAs"], "[]any")[q] == boxed(strArr(entry)[a]))
 //@   modifies mapOf(doc)
 //
 // remove: the result is the order-preserving selection of the entries that are not named by the patch
@@ -95,6 +97,8 @@ package doccomposer
 //@     invariant len(newPublicKeys) >= len(old(pkArr(doc["publicKey"])))
 //@     invariant forall q int :: 0 <= q && q < len(old(pkArr(doc["publicKey"]))) ==> idOf(newPublicKeys[q]) == idOf(old(pkArr(doc["publicKey"]))[q]) && (newPublicKeys[q] == old(pkArr(doc["publicKey"]))[q] || (exists a int :: 0 <= a && a < _k && newPublicKeys[q] == addPublicKeys[a]))
 //@     invariant forall q int :: len(old(pkArr(doc["publicKey"]))) <= q && q < len(newPublicKeys) ==> (exists a int :: 0 <= a && a < _k && newPublicKeys[q] == addPublicKeys[a])
+//@     invariant forall q int :: 0 <= q && q < len(old(pkArr(doc["publicKey"]))) && (forall a int :: 0 <= a && a < _k ==> idOf(addPublicKeys[a]) != idOf(old(pkArr(doc["publicKey"]))[q])) ==> newPublicKeys[q] == old(pkArr(doc["publicKey"]))[q]
+//@     invariant forall q int :: 0 <= q && q < len(old(pkArr(doc["publicKey"]))) && (exists a int :: 0 <= a && a < _k && idOf(addPublicKeys[a]) == idOf(old(pkArr(doc["publicKey"]))[q])) ==> (exists a int :: 0 <= a && a < _k && newPublicKeys[q] == addPublicKeys[a])
 //@     invariant forall q int :: 0 <= q && q < len(newPublicKeys) ==> idOf(newPublicKeys[q]) in existingPublicKeysMap
 //@     invariant forall s string :: s in existingPublicKeysMap ==> (exists q int :: 0 <= q && q < len(newPublicKeys) && idOf(newPublicKeys[q]) == s)
 //@     invariant framed()
@@ -104,6 +108,8 @@ package doccomposer
 //@   ensures isType(doc["publicKey"], "[]any") && len(unbox(doc["publicKey"], "[]any")) >= len(old(pkArr(doc["publicKey"])))
 //@   ensures forall q int :: 0 <= q && q < len(old(pkArr(doc["publicKey"]))) ==> idOf(unbox(unbox(doc["publicKey"], "[]any")[q], "map[string]any")) == idOf(old(pkArr(doc["publicKey"]))[q]) && (unbox(doc["publicKey"], "[]any")[q] == boxed(cast(old(pkArr(doc["publicKey"]))[q], "map[string]any")) || (exists a int :: 0 <= a && a < len(pkArr(entry)) && unbox(doc["publicKey"], "[]any")[q] == boxed(cast(pkArr(entry)[a], "map[string]any"))))
 //@   ensures forall q int :: len(old(pkArr(doc["publicKey"]))) <= q && q < len(unbox(doc["publicKey"], "[]any")) ==> (exists a int :: 0 <= a && a < len(pkArr(entry)) && unbox(doc["publicKey"], "[]any")[q] == boxed(cast(pkArr(entry)[a], "map[string]any")))
+//@   ensures forall q int :: 0 <= q && q < len(old(pkArr(doc["publicKey"]))) && (forall a int :: 0 <= a && a < len(pkArr(entry)) ==> idOf(pkArr(entry)[a]) != idOf(old(pkArr(doc["publicKey"]))[q])) ==> unbox(doc["publicKey"], "[]any")[q] == boxed(cast(old(pkArr(doc["publicKey"]))[q], "map[string]any"))
+//@   ensures forall q int :: 0 <= q && q < len(old(pkArr(doc["publicKey"]))) && (exists a int :: 0 <= a && a < len(pkArr(entry)) && idOf(pkArr(entry)[a]) == idOf(old(pkArr(doc["publicKey"]))[q])) ==> (exists a int :: 0 <= a && a < len(pkArr(entry)) && unbox(doc["publicKey"], "[]any")[q] == boxed(cast(pkArr(entry)[a], "map[string]any")))
 //@   ensures forall p int, q int :: 0 <= p && p < q && q < len(unbox(doc["publicKey"], "[]any")) && q >= len(old(pkArr(doc["publicKey"]))) ==> idOf(unbox(unbox(doc["publicKey"], "[]any")[p], "map[string]any")) != idOf(unbox(unbox(doc["publicKey"], "[]any")[q], "map[string]any"))
 //@   ensures forall a int :: 0 <= a && a < len(pkArr(entry)) ==> (exists q int :: 0 <= q && q < len(unbox(doc["publicKey"], "[]any")) && idOf(unbox(unbox(doc["publicKey"], "[]any")[q], "map[string]any")) == idOf(pkArr(entry)[a]))
 //@   modifies mapOf(doc)
@@ -158,6 +164,8 @@ package doccomposer
 //@     invariant len(newServices) >= len(old(svcArr(doc["service"])))
 //@     invariant forall q int :: 0 <= q && q < len(old(svcArr(doc["service"]))) ==> idOf(newServices[q]) == idOf(old(svcArr(doc["service"]))[q]) && (newServices[q] == old(svcArr(doc["service"]))[q] || (exists a int :: 0 <= a && a < _k && newServices[q] == addServices[a]))
 //@     invariant forall q int :: len(old(svcArr(doc["service"]))) <= q && q < len(newServices) ==> (exists a int :: 0 <= a && a < _k && newServices[q] == addServices[a])
+//@     invariant forall q int :: 0 <= q && q < len(old(svcArr(doc["service"]))) && (forall a int :: 0 <= a && a < _k ==> idOf(addServices[a]) != idOf(old(svcArr(doc["service"]))[q])) ==> newServices[q] == old(svcArr(doc["service"]))[q]
+//@     invariant forall q int :: 0 <= q && q < len(old(svcArr(doc["service"]))) && (exists a int :: 0 <= a && a < _k && idOf(addServices[a]) == idOf(old(svcArr(doc["service"]))[q])) ==> (exists a int :: 0 <= a && a < _k && newServices[q] == addServices[a])
 //@     invariant forall q int :: 0 <= q && q < len(newServices) ==> idOf(newServices[q]) in existingServicesMap
 //@     invariant forall s string :: s in existingServicesMap ==> (exists q int :: 0 <= q && q < len(newServices) && idOf(newServices[q]) == s)
 //@     invariant framed()
@@ -167,6 +175,8 @@ package doccomposer
 //@   ensures isType(doc["service"], "[]any") && len(unbox(doc["service"], "[]any")) >= len(old(svcArr(doc["service"])))
 //@   ensures forall q int :: 0 <= q && q < len(old(svcArr(doc["service"]))) ==> idOf(unbox(unbox(doc["service"], "[]any")[q], "map[string]any")) == idOf(old(svcArr(doc["service"]))[q]) && (unbox(doc["service"], "[]any")[q] == boxed(cast(old(svcArr(doc["service"]))[q], "map[string]any")) || (exists a int :: 0 <= a && a < len(svcArr(entry)) && unbox(doc["service"], "[]any")[q] == boxed(cast(svcArr(entry)[a], "map[string]any"))))
 //@   ensures forall q int :: len(old(svcArr(doc["service"]))) <= q && q < len(unbox(doc["service"], "[]any")) ==> (exists a int :: 0 <= a && a < len(svcArr(entry)) && unbox(doc["service"], "[]any")[q] == boxed(cast(svcArr(entry)[a], "map[string]any")))
+//@   ensures forall q int :: 0 <= q && q < len(old(svcArr(doc["service"]))) && (forall a int :: 0 <= a && a < len(svcArr(entry)) ==> idOf(svcArr(entry)[a]) != idOf(old(svcArr(doc["service"]))[q])) ==> unbox(doc["service"], "[]any")[q] == boxed(cast(old(svcArr(doc["service"]))[q], "map[string]any"))
+//@   ensures forall q int :: 0 <= q && q < len(old(svcArr(doc["service"]))) && (exists a int :: 0 <= a && a < len(svcArr(entry)) && idOf(svcArr(entry)[a]) == idOf(old(svcArr(doc["service"]))[q])) ==> (exists a int :: 0 <= a && a < len(svcArr(entry)) && unbox(doc["service"], "[]any")[q] == boxed(cast(svcArr(entry)[a], "map[string]any")))
 //@   ensures forall p int, q int :: 0 <= p && p < q && q < len(unbox(doc["service"], "[]any")) && q >= len(old(svcArr(doc["service"]))) ==> idOf(unbox(unbox(doc["service"], "[]any")[p], "map[string]any")) != idOf(unbox(unbox(doc["service"], "[]any")[q], "map[string]any"))
 //@   ensures forall a int :: 0 <= a && a < len(svcArr(entry)) ==> (exists q int :: 0 <= q && q < len(unbox(doc["service"], "[]any")) && idOf(unbox(unbox(doc["service"], "[]any")[q], "map[string]any")) == idOf(svcArr(entry)[a]))
 //@   modifies mapOf(doc)
